@@ -1169,6 +1169,16 @@ def main2():
             report["kernels"][sp["fn"] + "(obligation skeleton)"] = dict(info, file=sp["file"])
     except Unsupported as e:
         report["errors"].append(f"agent/stream.c: restart obligations: {e}")
+    try:
+        import extract_flow
+        sp = extract_flow.SPEC_RMSTREAM
+        fpath = os.path.join(REPO, sp["file"])
+        d = ast_of(fpath, sp["fn"])
+        txt, info = extract_flow.translate_rmstream(sp, d, open(fpath, "rb").read(), consts, Unsupported, REPO)
+        open(os.path.join(GEN, "RemoveStream.lean"), "w").write(txt)
+        report["kernels"][sp["fn"] + "(flow skeleton)"] = dict(info, file=sp["file"])
+    except Unsupported as e:
+        report["errors"].append(f"agent/agent.c:nice_agent_remove_stream: {e}")
     out.append("end Nice.Gen\n")
     open(os.path.join(GEN, "Kernels.lean"), "w").write("\n".join(out))
     with open(os.path.join(GEN, "Tables.lean"), "w") as f:
